@@ -1,7 +1,7 @@
 (** C19 — codec libraries invert each other and are total on hostile input: property theorems only. *)
 From ChibiV Require Import C19.Prims C19.Base64 C19.Base64Proofs C19.Base64Stream C19.Base64StreamProofs
   C19.IntCodec C19.IntCodecProofs C19.AccTable Gen.C19_AccTable C19.AccTableProofs C19.UvTable Gen.C19_UvTable C19.UvTableProofs
-  C19.Json C19.JsonProofs C19.JsonValueProofs C19.JsonTextProofs C19.QP C19.QPProofs C19.Uri C19.UriProofs
+  C19.Json C19.JsonNum C19.JsonNumProofs C19.JsonProofs C19.JsonValueProofs C19.JsonTextProofs C19.QP C19.QPProofs C19.Uri C19.UriProofs
   C19.Csv C19.CsvProofs Gen.C19_Quarters C19.Half Gen.C19_HalfFns C19.HalfBnd C19.HalfProofs1 C19.HalfProofs2 C19.HalfProofs3 C19.QuarterProofs.
 Local Open Scope Z_scope.
 
@@ -253,3 +253,19 @@ Theorem csv_read_write_read : forall g, wf g -> forall txt rows, csv_read g txt 
   exists txt', csv_write g rows = Some txt' /\ csv_read g txt' = Some rows.
 Proof. exact CsvProofs.csv_read_write_read. Qed.
 Print Assumptions csv_read_write_read.
+
+(** 38-40: round 4 — the acceptance predicate for the text of a JSON number (Json writer, 10 significant digits) *)
+Theorem json_number_text_relative_error : forall m e d k p : Z, m <> 0 -> JsonNum.num_accept m e d k p = true ->
+  2000000000 * Z.abs (JsonNum.na_T e d k p - JsonNum.na_X m e k p) <= Z.abs (JsonNum.na_X m e k p).
+Proof. exact JsonNumProofs.num_accept_relative. Qed.
+Print Assumptions json_number_text_relative_error.
+
+Theorem json_number_text_sign : forall m e d k p : Z, m <> 0 -> JsonNum.num_accept m e d k p = true ->
+  (0 < m <-> 0 < d) /\ d <> 0.
+Proof. exact JsonNumProofs.num_accept_sign. Qed.
+Print Assumptions json_number_text_sign.
+
+Theorem json_number_text_exponent_unique : forall m e d k p j : Z, m <> 0 -> 0 < j ->
+  JsonNum.num_accept m e d k p = true -> JsonNum.num_accept m e (d * 10 ^ j) k p = false.
+Proof. exact JsonNumProofs.num_accept_exponent_unique. Qed.
+Print Assumptions json_number_text_exponent_unique.
